@@ -763,7 +763,7 @@ pub fn hazard_setup(rng: &mut Rng, wild_p: u64) -> Setup {
         *i = rng.u8();
     }
     Setup {
-        image: Image { bytes, stack, limit },
+        image: Image { bytes, stack, limit, keep_limit: false },
         regs: Some(regs),
         pokes: vec![],
         inputs,
